@@ -27,6 +27,8 @@ func (v JV) plainJSON() []byte {
 
 func (v JV) writePlain(b *bytes.Buffer) {
 	switch v.K {
+	case 'r':
+		v.A[0].writePlain(b)
 	case 0, 'z':
 		b.WriteString("null")
 	case 'b':
